@@ -127,7 +127,8 @@ def build_predictor(plan, sim, provider, hook=None, batch=None, max_instances="p
         inet = IdealNet(lookup, "centered" if rgb else "blob", plan["centered"]["stride"], sigma, plan["n_nodes"], anchor=plan.get("anchor"))
         nets["centroid"], nets["centered"] = cnet, inet
         mi = plan.get("max_instances") if max_instances == "plan" else max_instances
-        pred = P.TopDownPredictor(centroid_config=head_cfg(plan, "centroid"), confmap_config=head_cfg(plan, "centered"), centroid_model=cnet,
+        gt = bool(plan.get("gt_centroids"))  # centered-instance model alone: crops come from the labelled centroids (LabelsReader only)
+        pred = P.TopDownPredictor(centroid_config=None if gt else head_cfg(plan, "centroid"), confmap_config=head_cfg(plan, "centered"), centroid_model=None if gt else cnet,
                                   confmap_model=inet, centroid_backbone_type="unet", centered_instance_backbone_type="unet", peak_threshold=0.2,
                                   integral_refinement=refine, integral_patch_size=5, batch_size=bs, max_instances=mi, preprocess_config=prep,
                                   anchor_ind=plan.get("anchor"))
